@@ -232,14 +232,18 @@ def c04(run):
 
 def c07(run):
     run.assumptions = BASE_ASSUME + [
-        "joins are join_all/select_all over <= 3 leaves; combinators that store the outer waker "
-        "(FuturesUnordered, join_all above 30 futures) are outside the family"]
+        "joins are join_all/select_all over <= 3 leaves; of the combinators that store the outer waker only "
+        "flatten_unordered (then_stream) is in the family (FuturesUnordered by itself, join_all above 30 futures are not)",
+        "task-to-task channels are unbounded futures mpsc channels with one receiving task each; a task that waits on a "
+        "channel somebody can still send on is outside the done-when-settled guarantee (it does not wait on the shell)"]
     q = run.quick
     mc_and_replay(run, "scripts", 7 if q else 9, ALL_INV, ["direct"], cap=4000 if q else 40000)
     # every script of <= 2 (quick) / <= 3 (thorough) compound instructions over a 12-letter alphabet
     mc_and_replay(run, "scripts2" if q else "scripts3", 6 if q else 7, ALL_INV, ["direct"], cap=4000 if q else 60000)
     random_round(run, "script", run.seed, 1000 if q else 10000, ["direct", "stream"], "script", 2, 18,
                  budget=8 if q else 10, selftest=True)
+    # task-to-task channels: pipes up and down, select / join over a channel, an evicted or aborted sender
+    mc_and_replay(run, "chan1", 6, ALL_INV, ["direct", "stream", "core"], cap=2000 if q else 20000)
     # flatten_unordered keeps the waker it was polled with: the model-checked (strict) model evicts a task
     # stuck in it, the code does not (known deviation D12, admitted by the trace specification and counted)
     mc_and_replay(run, "flat1", 5 if q else 7, ALL_INV, ["direct", "core"], cap=2500 if q else 40000)
